@@ -109,17 +109,21 @@ func fixedHeaderRules(c *Ctx) int {
 
 // element header forms (RFC 8285 4.2/4.3), writer and reader agree structurally
 func elementHeaderRules(c *Ctx) int {
-	p, r := c.Prog, c.R
+	p := c.Prog
 	n := 0
 	w := p.Func("rtp.(Header).MarshalTo")
 	rd := p.Func("rtp.(*Header).Unmarshal")
 	rm := bits.Run(p, rd)
 	name := core.FuncName(rd)
 	n++
-	r.Add("BITS.elem", name, "one-byte form: id = header byte bits 7..4", p.Position(rd.Pos()), hasValue(rm, "0x4 $b[@c].7-4"), "no value is buf[n] >> 4")
+	addOrUndecided(c, "BITS.elem", name, "one-byte form: id = header byte bits 7..4", p.Position(rd.Pos()), hasValue(rm, "0x4 $b[@c].7-4"), "no value is buf[n] >> 4", rd)
 	// len = (byte & 0x0F) + 1
 	okLen := false
-	for _, b := range rd.Blocks {
+	var rdBlocks []*ssa.BasicBlock
+	for _, f := range scopeOf(rd) {
+		rdBlocks = append(rdBlocks, f.Blocks...)
+	}
+	for _, b := range rdBlocks {
 		for _, in := range b.Instrs {
 			if add, ok := in.(*ssa.BinOp); ok && add.Op == token.ADD {
 				if k, isC := core.ConstInt(add.Y); isC && k == 1 {
@@ -131,10 +135,14 @@ func elementHeaderRules(c *Ctx) int {
 		}
 	}
 	n++
-	r.Add("BITS.elem", name, "one-byte form: length = (header byte bits 3..0) + 1", p.Position(rd.Pos()), okLen, "no value is (buf[n] & 0x0F) + 1")
+	addOrUndecided(c, "BITS.elem", name, "one-byte form: length = (header byte bits 3..0) + 1", p.Position(rd.Pos()), okLen, "no value is (buf[n] & 0x0F) + 1", rd)
 	// writer: id<<4 | (len-1)
 	okW := false
-	for _, b := range w.Blocks {
+	var wBlocks []*ssa.BasicBlock
+	for _, f := range scopeOf(w) {
+		wBlocks = append(wBlocks, f.Blocks...)
+	}
+	for _, b := range wBlocks {
 		for _, in := range b.Instrs {
 			st, ok := in.(*ssa.Store)
 			if !ok {
@@ -160,7 +168,7 @@ func elementHeaderRules(c *Ctx) int {
 		}
 	}
 	n++
-	r.Add("BITS.elem", core.FuncName(w), "one-byte form: header byte = id<<4 | (len-1)", p.Position(w.Pos()), okW, "no store of id<<4 | (uint8(len(value))-1)")
+	addOrUndecided(c, "BITS.elem", core.FuncName(w), "one-byte form: header byte = id<<4 | (len-1)", p.Position(w.Pos()), okW, "no store of id<<4 | (uint8(len(value))-1)", w)
 	return n
 }
 
@@ -481,7 +489,14 @@ func sizeSibling(c *Ctx) int {
 	n := 0
 	// constants added in loops of MarshalSize: {1, 2}; bytes stored per element in MarshalTo loops: {1, 2}
 	sizeConsts := map[int64]bool{}
-	for _, b := range ms.Blocks {
+	var msBlocks, mtBlocks []*ssa.BasicBlock
+	for _, f := range scopeOf(ms) {
+		msBlocks = append(msBlocks, f.Blocks...)
+	}
+	for _, f := range scopeOf(mt) {
+		mtBlocks = append(mtBlocks, f.Blocks...)
+	}
+	for _, b := range msBlocks {
 		if !inAnyLoop(b) {
 			continue
 		}
@@ -497,7 +512,7 @@ func sizeSibling(c *Ctx) int {
 	}
 	// per-element single-byte stores in MarshalTo, grouped by loop (by block)
 	stores := map[int]int{}
-	for _, b := range mt.Blocks {
+	for _, b := range mtBlocks {
 		if !inAnyLoop(b) {
 			continue
 		}
@@ -514,13 +529,13 @@ func sizeSibling(c *Ctx) int {
 		}
 	}
 	n++
-	r.Add("SIBLING.size", core.FuncName(ms), "per-element header sizes {1,2} match the header bytes MarshalTo stores per element", p.Position(ms.Pos()),
-		sizeConsts[1] && sizeConsts[2] && stores[1] >= 1 && stores[2] >= 1, fmt.Sprintf("MarshalSize adds %v per element; MarshalTo stores per element (count->loops): %v", keysInt(sizeConsts), stores))
+	addOrUndecided(c, "SIBLING.size", core.FuncName(ms), "per-element header sizes {1,2} match the header bytes MarshalTo stores per element", p.Position(ms.Pos()),
+		sizeConsts[1] && sizeConsts[2] && stores[1] >= 1 && stores[2] >= 1, fmt.Sprintf("MarshalSize adds %v per element; MarshalTo stores per element (count->loops): %v", keysInt(sizeConsts), stores), ms, mt)
 	// both start from 12 + 4*len(CSRC), +4 for the extension header, round with ((x+3)/4)*4
 	for _, fn := range []*ssa.Function{ms, mt} {
 		oc, _ := opConsts(fn)
 		n++
-		r.Add("SIBLING.size", core.FuncName(fn), "extension size rounded to 32-bit words: ((x+3)/4)*4", p.Position(fn.Pos()), oc["+ 3"] >= 1 && oc["/ 4"] >= 1 && oc["* 4"] >= 1, fmt.Sprintf("%v", oc))
+		addOrUndecided(c, "SIBLING.size", core.FuncName(fn), "extension size rounded to 32-bit words: ((x+3)/4)*4", p.Position(fn.Pos()), oc["+ 3"] >= 1 && oc["/ 4"] >= 1 && oc["* 4"] >= 1, fmt.Sprintf("%v", oc), fn)
 	}
 	oc, _ := opConsts(ms)
 	n++
